@@ -1,9 +1,9 @@
 #!/bin/bash
-# usage: eval_seed_wt.sh <seedPID> <checkPID> [tier]  -- run a check against the scratch worktree /tmp/wt_<seedPID> (must be in patched state)
-S=$1; C=$2; T=${3:-quick}
-cd /tmp/wt_$S && git checkout -q -- . && git apply /tmp/seed_out/$S/patch.diff || exit 2
+# usage: eval_seed_wt.sh <seedPID> <checkPID> [tier] [outdir] [worktree]  -- run a check against the scratch worktree /tmp/wt_<seedPID> (must be in patched state)
+S=$1; C=$2; T=${3:-quick}; OUT=${4:-/tmp/seed_out/$S}; WT=${5:-/tmp/wt_$S}
+cd $WT && git checkout -q -- . && git apply $OUT/patch.diff || exit 2
 cd /verif
-out=$(VERIF_REPO=/tmp/wt_$S VERIF_EVIDENCE_DIR=/tmp/seed_out/$S/evidence VERIF_REPLAY_DIR=/tmp/seed_out/$S/replays /venv/bin/python check.py $C --tier $T 2>&1)
+out=$(VERIF_REPO=$WT VERIF_EVIDENCE_DIR=$OUT/evidence VERIF_REPLAY_DIR=$OUT/replays /venv/bin/python check.py $C --tier $T 2>&1)
 rc=$?
 v=$(echo "$out" | grep -c "^VIOLATION")
 echo "seed=$S check=$C tier=$T rc=$rc violations=$v $(echo "$out" | grep "^VIOLATION" | head -1 | cut -c1-200) $(echo "$out" | tail -1 | cut -c1-160)"
